@@ -99,18 +99,22 @@ impl<R: BufRead> Decoder<R> {
         // code unit U+000A so keep reading for any other code unit containing
         // that byte, e.g. U+4E0A or U+0A41.
         while self.encoding != Encoding::Utf8 && self.read_buf.ends_with(b"\n") {
-            let newline: &[u8] = if self.encoding == Encoding::Utf16LE {
+            if self.encoding == Encoding::Utf16LE {
                 // Reading up to b'\n' misses the high byte of the code unit
                 // so we need to read an additional byte if there is one.
                 let Some(byte) = self.read_byte()? else { break };
                 self.read_buf.push(byte);
 
-                b"\n\0"
-            } else {
-                b"\0\n"
-            };
+                if self.read_buf.len() % 2 == 0 && self.read_buf.ends_with(b"\n\0") {
+                    break;
+                }
 
-            if self.read_buf.len() % 2 == 0 && self.read_buf.ends_with(newline) {
+                // The additional byte might itself be the low byte of the
+                // line break, e.g. U+0A00 followed by U+000A.
+                if byte == b'\n' {
+                    continue;
+                }
+            } else if self.read_buf.len() % 2 == 0 && self.read_buf.ends_with(b"\0\n") {
                 break;
             }
 
